@@ -272,6 +272,50 @@ fn check_c16_case(case: &FileCase, env: &mut Env) -> Verdict {
     };
     let huge = file_like && case.content.len() >= 16 && Hdr::decode(&case.content[..16]).size > (1 << 30);
 
+    // ---- part 0: the C library first, in its own process: if opening, reading or closing this
+    // file damages the process (a mapping released that is not the reader's, a wild access), that
+    // process dies, is reported, and the in-process entry points are not exposed to the same file
+    let mut r3: Option<Result<(), NowOut>> = None;
+    // (always when a valid header declares more than the 72 bytes the layout has: that is where a
+    // reader can get its mapping arithmetic wrong)
+    let declares_more = file_like && case.content.len() >= 16 && reference_open_verdict(&case.content) == OpenVerdict::Ok && Hdr::decode(&case.content[..16]).size > 72;
+    if case.use_c || declares_more {
+        if let Some(d) = cdriver(env, "static") {
+            v.label("via-c-library");
+            v.sub_evals += 1;
+            let r = d.open(&pstr);
+            let mut died: Option<&str> = None;
+            if d.hung {
+                died = Some("clockbound_open did not return within 10 s (the C driver process had to be killed)");
+            } else if !d.alive() {
+                died = Some("clockbound_open crashed the C driver process");
+            } else if r.is_ok() {
+                d.set_time(1_700_000_000_000_000_000, 5_000_000_000);
+                if status_ok {
+                    let _ = d.now();
+                }
+                if d.hung {
+                    died = Some("clockbound_now did not return within 10 s after a successful open (the C driver process had to be killed)");
+                } else if !d.alive() {
+                    died = Some("clockbound_now crashed the C driver process after a successful open");
+                } else {
+                    d.close();
+                    // the process must still be in working order after the close
+                    let _ = d.abi();
+                    if !d.alive() {
+                        died = Some("the C driver process died in or right after clockbound_close: closing the client damaged the process");
+                    }
+                }
+            }
+            if let Some(m) = died {
+                v.fail(m.into());
+                let _ = std::fs::remove_dir_all(&dir);
+                return v;
+            }
+            r3 = Some(r);
+        }
+    }
+
     // ---- part 1: open through the three entry points
     let r1: Result<(), NowOut> = match ShmReader::new(&cpath) {
         Ok(mut rd) => {
@@ -302,32 +346,12 @@ fn check_c16_case(case: &FileCase, env: &mut Env) -> Verdict {
     if r1 != r2 && !huge {
         v.fail(format!("ShmReader::new gave {:?} but ClockBoundClient::new_with_path gave {:?}", r1, r2));
     }
-    if case.use_c {
-        if let Some(d) = cdriver(env, "static") {
-            v.label("via-c-library");
-            v.sub_evals += 1;
-            let r3 = d.open(&pstr);
-            if !d.alive() {
-                v.fail("clockbound_open crashed the C driver process".into());
-            } else {
-                if r3.is_ok() {
-                    d.set_time(1_700_000_000_000_000_000, 5_000_000_000);
-                    if status_ok {
-                        let _ = d.now();
-                    }
-                    if !d.alive() {
-                        v.fail("clockbound_now crashed the C driver process after a successful open".into());
-                    } else {
-                        d.close();
-                    }
-                }
-                if let Err(m) = judge_open("clockbound_open", &r3, &want, huge) {
-                    v.fail(m);
-                }
-                if r3 != r1 && !huge {
-                    v.fail(format!("clockbound_open gave {:?} but ShmReader::new gave {:?}", r3, r1));
-                }
-            }
+    if let Some(r3) = &r3 {
+        if let Err(m) = judge_open("clockbound_open", r3, &want, huge) {
+            v.fail(m);
+        }
+        if *r3 != r1 && !huge {
+            v.fail(format!("clockbound_open gave {:?} but ShmReader::new gave {:?}", r3, r1));
         }
     }
 
@@ -399,6 +423,10 @@ impl Property for C16 {
     fn check(case: &FileCase, env: &mut Env) -> Verdict {
         check_c16_case(case, env)
     }
+    fn crash_is_violation() -> bool {
+        // every file is either opened or refused: a reader that damages the process on some file does neither
+        true
+    }
     fn hang_is_violation() -> bool {
         // an open that never returns is neither success nor one of the documented errors
         true
@@ -440,6 +468,11 @@ impl Property for C16 {
                 let mut content = segment_bytes(&Hdr { size: declared, ..Hdr::valid(6) }, &rec);
                 content.resize(n, 0);
                 for kind in [PathKind::File, PathKind::SymlinkToFile] {
+                    if ex.failure.is_some() {
+                        // one failure is enough to report; the rest of the enumeration would only
+                        // repeat it (at 10 s apiece if it is a call that never returns)
+                        continue;
+                    }
                     let case = FileCase {
                         kind,
                         content: content.clone(),
@@ -489,7 +522,9 @@ pub struct AbiCase {
     /// what happens between the two opens and the two now() calls: 0 nothing; 1 the generation
     /// turns odd (daemon killed inside an update); 2 version and generation 0 (a restarting daemon
     /// has wiped the file); 3 one more complete update with another record; 4 both clients first
-    /// make a call that fails (monotonic reading a second before as-of)
+    /// make a call that fails (monotonic reading a second before as-of); 5 one more complete
+    /// update (a record whose as-of is 10 s later) lands while the client is inside now(), at its
+    /// first clock read
     #[serde(default)]
     pub after_open: u8,
 }
@@ -511,7 +546,7 @@ fn c17_strategy() -> BoxedStrategy<AbiCase> {
         -((1i64 << 31) * 1_000_000_000)..((1i64 << 31) * 1_000_000_000),
         any::<bool>(),
         prop_oneof![8 => Just(0u8), 1 => 1u8..5],
-        (any::<bool>(), prop_oneof![5 => Just(0u8), 1 => Just(1u8), 1 => Just(2u8), 1 => Just(3u8)], prop_oneof![4 => Just(0u8), 4 => 1u8..5]),
+        (any::<bool>(), prop_oneof![5 => Just(0u8), 1 => Just(1u8), 1 => Just(2u8), 1 => Just(3u8)], prop_oneof![4 => Just(0u8), 5 => 1u8..6]),
     )
         .prop_map(|(mut rec, bound, drift, (as_s, as_n), age, real, via_updater, open_error, (shared_lib, preexisting, after_open))| {
             // physically meaningful timestamps for the now() comparison; all fields stay distinct
@@ -722,14 +757,54 @@ fn check_c17_case(case: &AbiCase, env: &mut Env) -> Verdict {
             }
         }
     }
+    // after_open == 5: the update that lands during the call
+    let during: Vec<(usize, Vec<u8>)> = if case.after_open == 5 {
+        v.label("updated-during-the-call");
+        v.nontrivial = true;
+        let newer = Rec { as_of_s: published.as_of_s + 10, void_s: published.void_s + 10, bound: published.bound / 2 + 23, ..published };
+        vec![(OFF_GENERATION, 3u16.to_le_bytes().to_vec()), (HEADER_LEN, newer.encode().to_vec()), (OFF_GENERATION, 4u16.to_le_bytes().to_vec())]
+    } else {
+        vec![]
+    };
+    let original = if during.is_empty() { vec![] } else { std::fs::read(&path).unwrap_or_default() };
     let rust: NowOut = {
         let vc = VClock::new(mono, real);
         let _g = vc.install();
-        match rust_client {
+        if !during.is_empty() {
+            let writes = during.clone();
+            let p2 = path.clone();
+            let mut done = false;
+            crate::clock::set_on_read(Some(Box::new(move |_clk, _s| {
+                if !done {
+                    done = true;
+                    use std::os::unix::fs::FileExt;
+                    if let Ok(f) = std::fs::OpenOptions::new().write(true).open(&p2) {
+                        for (off, b) in &writes {
+                            let _ = f.write_all_at(b, *off as u64);
+                        }
+                    }
+                }
+            })));
+        }
+        let r = match rust_client {
             Ok(mut c) => now_out(c.now()),
             Err(e) => client_err_to_out(e),
-        }
+        };
+        crate::clock::set_on_read(None);
+        r
     };
+    if !during.is_empty() {
+        // the C library meets the same situation: the segment as it was, the update queued
+        use std::os::unix::fs::FileExt;
+        if let Ok(f) = std::fs::OpenOptions::new().write(true).open(&path) {
+            let _ = f.write_all_at(&original, 0);
+        }
+        if let Some(d) = cdriver(env, variant) {
+            for (off, b) in &during {
+                d.queue_update(&pstr, *off, b);
+            }
+        }
+    }
     if matches!(rust, NowOut::Err { .. }) {
         v.label("now-error-case");
         v.nontrivial = true;
@@ -754,6 +829,7 @@ fn check_c17_case(case: &AbiCase, env: &mut Env) -> Verdict {
                             2 => " (both attached before the file was wiped)",
                             3 => " (both attached before one more update)",
                             4 => " (after a failing call on both)",
+                            5 => " (one more update landing at the first clock read of the call)",
                             _ => "",
                         },
                         c,
@@ -782,7 +858,7 @@ impl Property for C17 {
     type Case = AbiCase;
     const ID: &'static str = "C17";
     fn rule() -> String {
-        "cases = record with all fields drawn independently (negative and > 2^32 bounds, all of u32 for drift and reserved, sec+nsec of both timestamps, 3 statuses), published through the real ShmWriter (raw) or through the daemon's ShmUpdater, on a fresh path or over unusable leftovers (200 bytes of garbage, 9 bytes, a 128-byte stale segment); clock readings incl. causality breaches, ages beyond 5 s / beyond void_after, malformed drift; both clients attach first, then (half of the cases) the segment changes under them - generation turns odd, file wiped, one more update - or both first make a failing call; open errors (missing file, bad magic, small declared size, generation 0); static and shared libclockbound. Oracle: (layout) the file decoded with offsets transcribed from PROTOCOL.md equals the published field values, length 72, header magic/size/version 1/generation 2, status in 0..2; (ABI) a C program compiled against clockbound.h returns for the same segment and the same virtual (realtime, monotonic) exactly the Rust client's earliest/latest/status or error kind/errno/detail; sizeof/offsetof/enumerators reported by the C program equal the documented ones. Non-trivial: all fields non-zero and pairwise distinct, or an error case.".into()
+        "cases = record with all fields drawn independently (negative and > 2^32 bounds, all of u32 for drift and reserved, sec+nsec of both timestamps, 3 statuses), published through the real ShmWriter (raw) or through the daemon's ShmUpdater, on a fresh path or over unusable leftovers (200 bytes of garbage, 9 bytes, a 128-byte stale segment); clock readings incl. causality breaches, ages beyond 5 s / beyond void_after, malformed drift; both clients attach first, then (half of the cases) the segment changes under them - generation turns odd, file wiped, one more update - or both first make a failing call, or one more update lands at the first clock read inside the call; open errors (missing file, bad magic, small declared size, generation 0); static and shared libclockbound. Oracle: (layout) the file decoded with offsets transcribed from PROTOCOL.md equals the published field values, length 72, header magic/size/version 1/generation 2, status in 0..2; (ABI) a C program compiled against clockbound.h returns for the same segment and the same virtual (realtime, monotonic) exactly the Rust client's earliest/latest/status or error kind/errno/detail; sizeof/offsetof/enumerators reported by the C program equal the documented ones. Non-trivial: all fields non-zero and pairwise distinct, or an error case.".into()
     }
     fn assumptions() -> Vec<String> {
         vec!["the magic number is read as the two 32-bit words 0x414D5A4E 0x43420200 in native byte order (PROTOCOL.md lists the eight bytes in that reading)".into()]
